@@ -3,3 +3,5 @@ import NV.Model.Parser
 import NV.Model.Query
 import NV.Model.Reply
 import NV.Driver.Main
+import NV.Model.CFG
+import NV.Driver.Cap
